@@ -155,6 +155,13 @@ def run(tier):
                 "host" if ex.get("api") == "host" else ex.get("api", "plain"),
                 " " + out if ex.get("api") == "host" else "")
             chk.violation(signature(d), ex)
+    # ---- imports over a changing file tree, all behaviours of MC_Imports replayed in one process
+    from vlib import importswalk
+    iw = importswalk.run(chk, tier)
+    for m in iw["mismatches"]:
+        if m["kind"] == "panic":
+            chk.violation({"kind": "imports-walk-panic", "text": m.get("text"), "history": " ; ".join(m.get("history", []))}, m)
+    cov["imports_walk_mismatches_of_other_properties"] = sum(1 for m in iw["mismatches"] if m["kind"] != "panic")
     chk.assumptions += [
         "TLC/SANY and the CommunityModules (Json, IOUtils.Serialize) are correct",
         "the specification enumerates the syntax space and classifies outcomes; it does not model pest's matching "
